@@ -146,9 +146,9 @@ PROPS["C03"] = {
 }
 PROPS["C17"] = {
     "level": "proof", "theorems": _GEN["C17"], "theorem_kinds": {},
-    "rule": "the programs of C03: after every transaction, for every live type: len vs number of iterated elements vs to_json size; get(i) vs i-th iterated element for all i and two indexes past the end; text len vs get_string units + embeds; concat(diff chunks) vs get_string; map len / keys / values / iter / contains_key / get / to_json; XML children / get(i) / first_child / attributes / get_attribute",
-    "trusted_base": [_MODEL_NOTE, "the model has one representation per sequence, so agreement of the implementation's redundant read paths (cached lengths, BlockIter, linked-list walks, DiffAssembler) is decided by the correspondence; the theorems only state that all counts derive from the same live units"],
-    "modelled_not_verified": ["Branch.block_len / content_len caches", "BlockIter", "xml TreeWalker / Siblings"], "assumptions": [],
+    "rule": "the programs of C03: after every transaction, for every live type: len vs number of iterated elements vs to_json size; get(i) vs i-th iterated element for all i and two indexes past the end; text len vs get_string units + embeds; concat(diff chunks) vs get_string; map len / keys / values / iter / contains_key / get / to_json; XML children / get(i) / first_child / attributes / get_attribute; generated XML trees on documents that keep tombstones: every node read through len, children, first_child, get(0..len+1), successors, siblings forward / backward / a mixed next-next_back script, parent, and compared with the extracted Coq walks (Crdt/XmlWalk.v) over the item structure taken from the hook dump",
+    "trusted_base": [_MODEL_NOTE, "for sequences and maps the model has one representation, so agreement of the implementation's redundant read paths (cached lengths, BlockIter, DiffAssembler) is decided by the correspondence; for XML trees the pointer walks are transcribed (Crdt/XmlWalk.v) and proved to describe one tree"],
+    "modelled_not_verified": ["Branch.block_len / content_len caches of non-XML types", "string chunks below XmlText", "gc-collected tombstones in XML child lists"], "assumptions": [],
 }
 PROPS["C14"] = {
     "level": "proof", "theorems": _GEN["C14"], "theorem_kinds": {},
